@@ -947,20 +947,6 @@ def record_generated(arg):
 
 
 # ---------------------------------------------------------------- trace validation with all failing events
-class _Capture:
-    """validate_traces() talks to this instead of ctx so that every REJECT line is kept."""
-
-    def __init__(self, ctx):
-        self.ctx = ctx
-        self.tmp = ctx.tmp
-        self.coverage = ctx.coverage
-        self.results = []
-
-    def add_tlc(self, res, label):
-        self.results.append(res)
-        self.ctx.add_tlc(res, label)
-
-
 class _Quiet:
     """A ctx for one chunk validated in a thread: nothing is written to the real ctx until the join."""
 
